@@ -317,6 +317,34 @@ def _hoist_closure(text, name, params, cspec, cexit, what):
     return rest, hoisted, ncalls
 
 
+def _rule_R25(text, args):
+    # for (I, P) in E.iter().enumerate() {   ->   for I in it: 0..(E).len() { let P = &(E)[I];
+    name = args[0] if args else "it"
+    rx = re.compile(r"for\s+\(\s*(?P<i>" + IDENT + r")\s*,\s*(?P<p>" + IDENT + r")\s*\)\s+in\s+(?P<e>" + IDENT + r"(?:\." + IDENT + r")*)\.iter\(\)\.enumerate\(\)\s*\{")
+    return rx.subn(lambda m: "for %s in %s: 0..(%s).len() /*@loophead*/ { let %s = &(%s)[%s];" % (m.group("i"), name, m.group("e"), m.group("p"), m.group("e"), m.group("i")), text)
+
+
+def _rule_R26(text, args):
+    # for (A, B) in &V {   ->   for vj__ in it2: 0..(V).len() { let (A, B) = &(V)[vj__];
+    name = args[0] if args else "it2"
+    rx = re.compile(r"for\s+(?P<pat>\(\s*" + IDENT + r"\s*,\s*" + IDENT + r"\s*\))\s+in\s+&(?P<v>" + IDENT + r")\s*\{")
+    return rx.subn(lambda m: "for vj__ in %s: 0..(%s).len() /*@loophead*/ { let %s = &(%s)[vj__];" % (name, m.group("v"), m.group("pat"), m.group("v")), text)
+
+
+def _rule_R27(text, args):
+    # X.get(A..B).unwrap()  ->  vstub_subslice(&X, A, B)        &X[A..B]  ->  vstub_subslice(&X, A, B)
+    # (range indexing of a Vec is outside vstd; bound to a trusted stub that REQUIRES A <= B <= X.len() - so the panic of
+    #  the unwrap / of the index expression stays an obligation - and returns the sub-slice)
+    n = 0
+    rx1 = re.compile(r"(?P<x>" + IDENT + r")\.get\(\s*(?P<a>[^()]*?)\s*\.\.\s*(?P<b>[^()]*?)\s*\)\.unwrap\(\)")
+    text, k = rx1.subn(lambda m: "vstub_subslice(&%s, %s, %s)" % (m.group("x"), m.group("a"), m.group("b")), text)
+    n += k
+    rx2 = re.compile(r"&(?P<x>" + IDENT + r")\[\s*(?P<a>[^\[\]]*?)\s*\.\.\s*(?P<b>[^\[\]]+?)\s*\]")
+    text, k = rx2.subn(lambda m: "vstub_subslice(&%s, %s, %s)" % (m.group("x"), m.group("a"), m.group("b")), text)
+    n += k
+    return text, n
+
+
 def _rule_R6(text, args):
     # path normalisation for the one-file unit: args are from=to pairs (e.g. super::OptionalSpace=OptionalSpace)
     n = 0
@@ -346,7 +374,7 @@ def _rule_R16(text, args):
     return rx.subn(lambda m: 'write!(%s, "{}%s", %s)' % (m.group(1), m.group(3), m.group(2)), text)
 
 
-RULES = {"R24": _rule_R24, "R23": _rule_R23, "R21": _rule_R21, "R20": _rule_R20, "R19": _rule_R19, "R18": _rule_R18, "R17": _rule_R17, "R16": _rule_R16, "R15": _rule_R15, "R6": _rule_R6, "R14": _rule_R14, "R13": _rule_R13, "R1": _rule_R1, "R4": _rule_R4, "R4rev": _rule_R4rev, "R11": _rule_R11, "R8": _rule_R8, "R7": _rule_R7,
+RULES = {"R27": _rule_R27, "R26": _rule_R26, "R25": _rule_R25, "R24": _rule_R24, "R23": _rule_R23, "R21": _rule_R21, "R20": _rule_R20, "R19": _rule_R19, "R18": _rule_R18, "R17": _rule_R17, "R16": _rule_R16, "R15": _rule_R15, "R6": _rule_R6, "R14": _rule_R14, "R13": _rule_R13, "R1": _rule_R1, "R4": _rule_R4, "R4rev": _rule_R4rev, "R11": _rule_R11, "R8": _rule_R8, "R7": _rule_R7,
          "R9": _rule_R9, "R12": _rule_R12}
 
 
